@@ -1513,7 +1513,11 @@ func genSpecr(r *vh.Rng, i int) specrScn {
 	}
 	e := 1 + c.a
 	big := c.mode != "p"
-	switch r.Intn(4) {
+	pick := r.Intn(4)
+	if big {
+		pick = r.Intn(6) // half of the barrier / at-once runs: long retry sequences on the shared counter
+	}
+	switch pick {
 	case 0:
 		n := r.Intn(3)
 		if big {
@@ -1538,7 +1542,9 @@ func genSpecr(r *vh.Rng, i int) specrScn {
 			c.policy, c.fates = fmt.Sprintf("custom:%d:%s", r.Intn(4), "nrnrnrnrnrn"), []string{"e1", "e9", "e7", "e2"}
 			c.nhosts = 7 + r.Intn(3)
 		case "b":
-			c.policy, c.fates = fmt.Sprintf("custom:%d:%s", 6+r.Intn(40), "rrrrrrrrrnr"), []string{"e1", "e9", "e7", "e2", "e4"}
+			// mostly Retry on the same host: round after round, every execution completes an attempt at the same
+			// instant; with the occasional RetryNextHost the executions also drain the shared iterator
+			c.policy, c.fates = fmt.Sprintf("custom:%d:%s", 50+r.Intn(550), []string{"rrrrrrrrrrr", "rrrrrrrrrnr"}[r.Intn(2)]), []string{"e1", "e9", "e7", "e2", "e4"}
 			c.nhosts = e + 2 + r.Intn(3)
 		default:
 			c.policy, c.fates = fmt.Sprintf("custom:%d:%s", 100+r.Intn(900), "rrrrrrrrrrr"), []string{"e1", "e9", "e7", "e2"}
